@@ -26,6 +26,7 @@ import (
 	"github.com/oasisprotocol/curve25519-voi/internal/verif/ref"
 	"github.com/oasisprotocol/curve25519-voi/internal/verif/ref/refed"
 	ed "github.com/oasisprotocol/curve25519-voi/primitives/ed25519"
+	"github.com/oasisprotocol/curve25519-voi/primitives/ed25519/extra/cache"
 )
 
 func main() { mc.Main("C01", run) }
@@ -1051,6 +1052,151 @@ func run(c *mc.Ctx) {
 		}
 	})
 
+	// ---- sub-space "options-history": [query under P; Sign / batch with P; the same query under P again] (T12) ----
+	// One index per VerifyOptions object P (the four exported presets and two caller-owned structs), so no two indices
+	// share an object and the history replays alone.  The queries are the cases on which the flags matter (small-order R,
+	// small-order A, non-canonical A / R, an honest signature); between the rounds the same P is handed to
+	// PrivateKey.Sign (SelfVerify on/off, AddedRandomness on/off) and to a BatchVerifier.  Every answer must be the
+	// predicate's, every Sign result the RFC 8032 signature, and P / the Options / the presets must never be written to.
+	{
+		seed0 := mc.Bytes(c.Seed, "c01-seed", 0, 32)
+		rk0 := refed.NewKey(seed0)
+		priv0 := ed.PrivateKey(append(append([]byte{}, seed0...), rk0.Pub...))
+		own1, own2 := voOf(refed.PresetStdLib), voOf(refed.PresetZIP215)
+		type pobj struct {
+			name string
+			vo   *ed.VerifyOptions
+			fl   refed.Flags
+		}
+		ps := []pobj{{"VerifyOptionsDefault", ed.VerifyOptionsDefault, refed.PresetDefault}, {"VerifyOptionsStdLib", ed.VerifyOptionsStdLib, refed.PresetStdLib},
+			{"VerifyOptionsFIPS_186_5", ed.VerifyOptionsFIPS_186_5, refed.PresetFIPS}, {"VerifyOptionsZIP_215", ed.VerifyOptionsZIP_215, refed.PresetZIP215},
+			{"caller-owned {SA,SR,NA,CL}", &own1, refed.PresetStdLib}, {"caller-owned {SA,SR,NA,NR}", &own2, refed.PresetZIP215}}
+		A, R := keys[0].A, keys[0].R
+		type qry struct{ a, r *ent }
+		qs := []qry{{honA, pickEnt(R, "T0")[0]}, {honA, pickEnt(R, "T4")[0]}, {pickEnt(A, "T1")[0], honR}, {pickEnt(A, "y=p+1,sign=0")[0], honR},
+			{honA, pickEnt(R, "y=p+1,sign=0")[0]}, {honA, honR}, {pickEnt(A, "aB+T1")[0], pickEnt(R, "T2")[0]}}
+		hv := []*variant{vars[0], vars[3], vars[4], vars[7]} // pure, ctx100, ph, ph+ctx100
+		c.Par("options-history", len(ps), func(w *mc.W, i int) {
+			P := ps[i]
+			for vi, va := range hv {
+				m := mc.Bytes(c.Seed, "c01-history-message", i*8+vi, 64)
+				type qc struct {
+					pk, sig []byte
+					f       *refed.Facts
+					epk     *ed.ExpandedPublicKey
+				}
+				var cases []qc
+				for _, q := range qs {
+					sig := mkSig(q.a, q.r, va, m)
+					cases = append(cases, qc{q.a.enc, sig, refed.Analyse(q.a.enc, m, sig, va.v), k.expand(w, q.a.enc)})
+				}
+				round := func(when string) {
+					for _, q := range cases {
+						exp, why := q.f.Verdict(P.fl)
+						lo := &ed.Options{Hash: va.hash, Context: string(va.v.Context), Verify: P.vo}
+						og := guardOpts(lo)
+						w.EvalN("options-history/"+whyName(why), 2, true)
+						got, pan := call(func() bool { return ed.VerifyWithOptions(q.pk, m, q.sig, lo) })
+						og.check(w, "VerifyWithOptions")
+						k.cmp(w, "VerifyWithOptions("+when+")", got, pan, exp, why, q.pk, m, q.sig, va, P.fl)
+						if q.epk != nil {
+							got, pan = call(func() bool { return ed.VerifyExpandedWithOptions(q.epk, m, q.sig, lo) })
+							og.check(w, "VerifyExpandedWithOptions")
+							k.cmp(w, "VerifyExpandedWithOptions("+when+")", got, pan, exp, why, q.pk, m, q.sig, va, P.fl)
+						}
+					}
+				}
+				round("first query under " + P.name)
+				want := rk0.Sign(va.v, m)
+				for mode := 0; mode < 4; mode++ {
+					so := &ed.Options{Hash: va.hash, Context: string(va.v.Context), SelfVerify: mode&1 == 0, AddedRandomness: mode&2 != 0, Verify: P.vo}
+					og := guardOpts(so)
+					var sig []byte
+					var err error
+					_, pan := call(func() bool { sig, err = priv0.Sign(&constStream{b: byte(i)}, m, so); return true })
+					og.check(w, fmt.Sprintf("PrivateKey.Sign(SelfVerify=%v, AddedRandomness=%v, Verify=%s)", so.SelfVerify, so.AddedRandomness, P.name))
+					w.Eval("options-history/sign", true)
+					if pan || err != nil || len(sig) != 64 || (mode&2 == 0 && !bytes.Equal(sig, want)) {
+						w.Fail("PrivateKey.Sign/with-preset", fmt.Sprintf("Sign(SelfVerify=%v, AddedRandomness=%v, Verify=%s, variant %s) gives sig=%x err=%v panic=%v, RFC 8032 signature %x", so.SelfVerify, so.AddedRandomness, P.name, va.name, sig, err, pan, want), nil)
+					}
+					round(fmt.Sprintf("after Sign(SelfVerify=%v, AddedRandomness=%v) with %s", so.SelfVerify, so.AddedRandomness, P.name))
+				}
+				bv := ed.NewBatchVerifier()
+				var want2 []bool
+				for _, q := range cases {
+					lo := &ed.Options{Hash: va.hash, Context: string(va.v.Context), Verify: P.vo}
+					og := guardOpts(lo)
+					bv.AddWithOptions(q.pk, m, q.sig, lo)
+					og.check(w, "BatchVerifier.AddWithOptions")
+					exp, _ := q.f.Verdict(P.fl)
+					want2 = append(want2, exp)
+				}
+				_, each := bv.Verify(&constStream{b: byte(i + 1)})
+				presetsIntact(w, "BatchVerifier.Verify")
+				w.EvalN("options-history/batch", int64(len(cases)), true)
+				if fmt.Sprint(each) != fmt.Sprint(want2) {
+					w.Fail("BatchVerifier.Verify/with-preset", fmt.Sprintf("batch of the %d queries under %s (variant %s): each=%v, predicate says %v", len(cases), P.name, va.name, each, want2), nil)
+				}
+				round("after a batch with " + P.name)
+			}
+		})
+	}
+
+	// ---- sub-space "cache-twin": cache.Verifier (small LRU) as one more twin of the verification entry points ----
+	// Each index owns a Verifier whose LRU holds 1..3 keys and walks a fixed sequence over 6 keys (honest, second honest,
+	// small-order, mixed-order, non-canonical, undecodable): every key twice in a row (miss with eviction, then a hit);
+	// R alternates between honest, small-order and non-canonical strings; options rotate through Verify == nil, the
+	// explicit default and the other presets.  Every answer (VerifyWithOptions, Verify, and AddWithOptions into a batch)
+	// must be the predicate's.
+	{
+		A, R := keys[0].A, keys[0].R
+		cks := []*ent{honA, honA2, pickEnt(A, "T1")[0], pickEnt(A, "aB+T1")[0], pickEnt(A, "y=p+1,sign=0")[0]}
+		cks = append(cks, pickEnt(A, "generic undecodable")...)
+		crs := []*ent{honR, pickEnt(R, "T0")[0], pickEnt(R, "T4")[0], pickEnt(R, "y=p+1,sign=0")[0], pickEnt(R, "rB+T1")[0]}
+		c.Par("cache-twin", c.Pick(12, 60), func(w *mc.W, i int) {
+			v := cache.NewVerifier(cache.NewLRUCache(1 + i%3))
+			va := vars[i%len(vars)]
+			for step := 0; step < 24; step++ {
+				// every key is used twice in a row (a miss that may evict, then a hit on the entry just inserted), walking
+				// through more keys than the cache holds, with stride 1 or 2
+				a := cks[((step/2)*(1+i%2)+i)%len(cks)]
+				r := crs[(step+i/3)%len(crs)]
+				m := mc.Bytes(c.Seed, "c01-cache-message", i*32+step, 64)
+				sig := mkSig(a, r, va, m)
+				f := refed.Analyse(a.enc, m, sig, va.v)
+				pi := (step + i) % 5 // 0: Verify == nil, 1..4 presets
+				fl, vo := refed.PresetDefault, (*ed.VerifyOptions)(nil)
+				if pi > 0 {
+					fl, vo = presetSpec[pi-1], presetPtrs[pi-1]
+				}
+				exp, why := f.Verdict(fl)
+				lo := &ed.Options{Hash: va.hash, Context: string(va.v.Context), Verify: vo}
+				og := guardOpts(lo)
+				w.EvalN("cache-twin/"+whyName(why), 2, f.LenOK && f.SInRange)
+				got, pan := call(func() bool { return v.VerifyWithOptions(a.enc, m, sig, lo) })
+				og.check(w, "cache.Verifier.VerifyWithOptions")
+				k.cmp(w, "cache.Verifier.VerifyWithOptions", got, pan, exp, why, a.enc, m, sig, va, fl)
+				if va.v.Pure() && pi == 0 {
+					got, pan = call(func() bool { return v.Verify(a.enc, m, sig) })
+					k.cmp(w, "cache.Verifier.Verify", got, pan, exp, why, a.enc, m, sig, va, fl)
+				}
+				bv := ed.NewBatchVerifier()
+				var each []bool
+				_, pan = call(func() bool {
+					v.AddWithOptions(bv, a.enc, m, sig, lo)
+					v.AddWithOptions(bv, a.enc, m, sig, lo)
+					_, each = bv.Verify(&constStream{b: byte(step)})
+					return true
+				})
+				og.check(w, "cache.Verifier.AddWithOptions")
+				if pan || len(each) != 2 || each[0] != exp || each[1] != exp {
+					d, cas := k.describe(a.enc, m, sig, va, fl)
+					w.Fail("cache.Verifier.AddWithOptions/batch", fmt.Sprintf("step %d: batch filled through the cache gives %v (panic=%v), predicate says %v (%s): %s", step, each, pan, exp, why, d), cas)
+				}
+			}
+		})
+	}
+
 	// ---- sub-space "caller-memory": arguments are sub-slices of ONE caller buffer with spare capacity ----
 	// public key, message and signature live in one arena between guard bytes; every slice handed to the library has
 	// capacity up to the end of the arena.  Results must equal the reference verdict (= what tight copies give), the
@@ -1130,7 +1276,9 @@ func run(c *mc.Ctx) {
 			exp, why := f.Verdict(o.fl)
 			lo := &ed.Options{Hash: mcs.va.hash, Context: string(mcs.va.v.Context), Verify: o.vo}
 			w.EvalN("caller-memory/"+whyName(why), 2, f.LenOK && f.SInRange)
+			og := guardOpts(lo)
 			got, pan := call(func() bool { return ed.VerifyWithOptions(pk, m, sig, lo) })
+			og.check(w, "VerifyWithOptions")
 			intact("VerifyWithOptions")
 			k.cmp(w, "VerifyWithOptions(caller buffer)", got, pan, exp, why, mcs.a.enc, mcs.m, mcs.sig, mcs.va, o.fl)
 			if epk != nil {
@@ -1151,6 +1299,7 @@ func run(c *mc.Ctx) {
 				}
 				all, each := bv.Verify(&constStream{b: byte(i)})
 				intact("BatchVerifier.Verify")
+				og.check(w, "BatchVerifier.Add*WithOptions/Verify")
 				w.EvalN("caller-memory/batch/"+whyName(why), int64(n), f.LenOK && f.SInRange)
 				bad := all != exp || len(each) != n
 				for _, e := range each {
